@@ -131,6 +131,11 @@ class Regions:
         newcls.regions = self.regions.copy()
         return newcls
 
+    def __copy__(self):
+        # copy.copy() would otherwise copy the instance dictionary
+        # and share the list of regions with the original
+        return self.copy()
+
     @classmethod
     def get_formats(cls):
         """
